@@ -20,7 +20,6 @@ import (
 	"bytes"
 	"fmt"
 	"go/format"
-	"path"
 	"path/filepath"
 
 	"github.com/cloudwego/thriftgo/generator/backend"
@@ -130,7 +129,8 @@ func (g *FastGoBackend) GenerateOne(ast *parser.Thrift) (*plugin.Generated, erro
 
 	// Headers:
 	// thriftgo version and package name
-	packageName := path.Base(golang.GetImportPath(g.utils, ast))
+	// the same package name as the file written by the go backend next to this one
+	packageName := golang.GetImportPackage(golang.GetImportPath(g.utils, ast))
 	fmt.Fprintf(c, "%s\npackage %s\n\n", fixedFileHeader, packageName)
 
 	// Imports
